@@ -5,12 +5,15 @@
    ctir.trace <function> <arg>…   → ok n=<events> h=<digest> d=<declassified verdicts> | panic … | stuck
    ctir.check <function>          → true | false      (the label checker on the slice of that function)
    ctirfn.run <function> <arg>…   → the same as ctir.run on the program SMGo/Gen/CTIRProgFn.lean
+   ctirproto.run <function> <arg>… → the same on the extended program SMGo/Gen/CTIRProgProto.lean (VerifyHashed, ZA, …)
+                                     with the oracle SMGo/Model/CTIRProto.lean (stdOracle + sm3.Sum + big.Int.Cmp)
 
    an optional first argument `tape=x<hex>` is the randomness `io.ReadFull` delivers, 32 bytes per read
    values: decimal integers, `[v,v,…]` arrays, `x<hex>` byte arrays (`x` alone: empty) -/
 import SMGo.Model.CTIR
 import SMGo.Gen.CTIRProg
 import SMGo.Gen.CTIRProgFn
+import SMGo.Model.CTIRProto
 open SMGo.Model.CTIR SMGo.Gen.CTIRProg
 
 namespace Driver.CTIR
@@ -128,6 +131,14 @@ def handle (toks : List String) : Option String :=
     match (SMGo.Gen.CTIRProgFn.fnNames.zipIdx.find? (fun p => p.1 == name)).map (·.2), args.mapM parseArg with
     | some g, some vs =>
       match run SMGo.Gen.CTIRProgFn.prog SMGo.Gen.CTIRProgFn.globals (stdOracle SMGo.Gen.CTIRProgFn.extKinds (tapeOf [])) fuel g vs with
+      | some (.ret rs, _) => some ("ok" ++ String.join (rs.map (fun v => " " ++ showVal v)))
+      | some (.panic, _) => some "panic"
+      | _ => some "stuck"
+    | _, _ => some "bad-op"
+  | "ctirproto.run" :: name :: args =>
+    match (SMGo.Gen.CTIRProgProto.fnNames.zipIdx.find? (fun p => p.1 == name)).map (·.2), args.mapM parseArg with
+    | some g, some vs =>
+      match run SMGo.Gen.CTIRProgProto.prog SMGo.Gen.CTIRProgProto.globals (SMGo.Model.CTIRProto.protoOracle (tapeOf [])) fuel g vs with
       | some (.ret rs, _) => some ("ok" ++ String.join (rs.map (fun v => " " ++ showVal v)))
       | some (.panic, _) => some "panic"
       | _ => some "stuck"
